@@ -43,6 +43,8 @@ var (
 type scripted struct {
 	outcome string
 	calls   int
+	// cancelRound ends the context of the round that is running (outcome "refuse-cancel")
+	cancelRound func()
 }
 
 func (s *scripted) Do(req *http.Request) (*http.Response, error) {
@@ -71,6 +73,14 @@ func (s *scripted) Do(req *http.Request) (*http.Response, error) {
 		return nil, context.DeadlineExceeded
 	case "refuse":
 		vclock.Advance(time.Millisecond)
+		return nil, &net.OpError{Op: "dial", Net: "tcp", Err: &os_SyscallError{syscall.ECONNREFUSED}}
+	case "refuse-cancel":
+		// the connection is refused and, while the client waits to retry, the round's context ends (shutdown, the
+		// caller of a forced check going away, the round's own deadline): the probe is abandoned without an outcome
+		vclock.Advance(time.Millisecond)
+		if s.cancelRound != nil {
+			s.cancelRound()
+		}
 		return nil, &net.OpError{Op: "dial", Net: "tcp", Err: &os_SyscallError{syscall.ECONNREFUSED}}
 	}
 	panic("unknown outcome " + s.outcome)
@@ -263,7 +273,7 @@ func apply(w *world, r *ref, e event, deviations *[]string) *mismatch {
 			r.next = t + r.delay(r.f)
 		} else {
 			r.probes++
-			lat := map[string]time.Duration{"ok": 10 * time.Millisecond, "slow-ok": 11 * time.Second, "404": 10 * time.Millisecond, "500": 10 * time.Millisecond, "slow-500": 11 * time.Second, "timeout": 2 * time.Second, "refuse": time.Millisecond}[e.outcome]
+			lat := map[string]time.Duration{"ok": 10 * time.Millisecond, "slow-ok": 11 * time.Second, "404": 10 * time.Millisecond, "500": 10 * time.Millisecond, "slow-500": 11 * time.Second, "timeout": 2 * time.Second, "refuse": time.Millisecond, "refuse-cancel": time.Millisecond}[e.outcome]
 			success := false
 			switch e.outcome {
 			case "ok":
@@ -278,15 +288,20 @@ func apply(w *world, r *ref, e event, deviations *[]string) *mismatch {
 			case "slow-500":
 				r.status = "unhealthy"
 				altStatus, altClause = "busy", "slow-error-status-recorded-busy"
-			case "timeout", "refuse":
+			case "timeout", "refuse", "refuse-cancel":
 				r.status = "offline"
 			}
 			end := t + lat
-			if e.outcome == "refuse" { // three attempts, each 1 ms of virtual time (retry delays are real time)
+			if e.outcome == "refuse" { // three attempts, each 1 ms of virtual time (the retry delays count as elapsed at once)
 				end = t + 3*time.Millisecond
 				r.probes += 2
 			}
-			if success {
+			if e.outcome == "refuse-cancel" {
+				// one attempt, then the probe is abandoned: the check counts as failed for the endpoint's status and
+				// backoff, the breaker hears nothing (neither a failure nor a success), a half-open slot stays claimed
+				r.f++
+				r.next = t + r.delay(r.f)
+			} else if success {
 				r.f = 0
 				r.next = t + r.interval
 				r.bMode, r.bRun = 0, 0
@@ -304,7 +319,17 @@ func apply(w *world, r *ref, e event, deviations *[]string) *mismatch {
 			}
 		}
 	}
-	w.hc.VerifPeriodicRound(ctx)
+	if e.outcome == "refuse-cancel" {
+		cctx, cancel := context.WithCancel(ctx)
+		w.client.cancelRound = cancel
+		vclock.HoldDelays(true)
+		w.hc.VerifRoundWithContext(cctx)
+		vclock.HoldDelays(false)
+		w.client.cancelRound = nil
+		cancel()
+	} else {
+		w.hc.VerifPeriodicRound(ctx)
+	}
 	vsched.WaitOthers()
 	m := observe(w, r, e, checked, altStatus, altClause)
 	if m != nil && m.clause == altClause && altClause != "" {
@@ -457,7 +482,10 @@ func explore(interval, timeout time.Duration, depth int, withRefuse bool) {
 	alpha := []event{{kind: "tick", outcome: "ok"}, {kind: "tick", outcome: "slow-ok"}, {kind: "tick", outcome: "500"}, {kind: "tick", outcome: "404"}, {kind: "tick", outcome: "slow-500"},
 		{kind: "tick", outcome: "timeout"}, {kind: "wait", d: time.Second}, {kind: "wait", d: 31 * time.Second}, {kind: "proxyfail"}}
 	if withRefuse {
-		alpha = append(alpha, event{kind: "tick", outcome: "refuse"})
+		// the breaker-centred alphabet: failures that are retried inside one check (refuse: three attempts) and probes
+		// that are abandoned between two attempts, at every depth (the retry delays are virtual)
+		alpha = []event{{kind: "tick", outcome: "ok"}, {kind: "tick", outcome: "500"}, {kind: "tick", outcome: "timeout"}, {kind: "tick", outcome: "refuse"}, {kind: "tick", outcome: "refuse-cancel"},
+			{kind: "wait", d: time.Second}, {kind: "wait", d: 31 * time.Second}, {kind: "proxyfail"}}
 	}
 	idx := 0
 	bad := map[string]bool{}
@@ -522,9 +550,6 @@ func explore(interval, timeout time.Duration, depth int, withRefuse bool) {
 				return
 			}
 			for _, e := range alpha {
-				if e.outcome == "refuse" && len(h) >= 3 {
-					continue // each refusal costs ~300 ms of real retry delay
-				}
 				gen(append(h, e))
 			}
 		}
@@ -549,7 +574,8 @@ func main() {
 	erace()
 	explore(5*time.Second, 2*time.Second, depth, false)
 	explore(30*time.Second, 10*time.Second, depth-1, false)
-	explore(7*time.Second, 3*time.Second, 3, true)
+	explore(7*time.Second, 3*time.Second, depth, true)
+	explore(time.Second, 500*time.Millisecond, depth-1, true)
 	// short intervals: the backoff cap (interval x 12) stays below the breaker timeout, so every tick is due
 	explore(time.Second, 500*time.Millisecond, depth-1, false)
 	explore(2*time.Second, time.Second, depth-1, false)
@@ -570,10 +596,10 @@ func main() {
 			}
 		}
 	}
-	res.Info["bounds"] = map[string]any{"depth": depth, "events": "tick x {ok, slow-ok(11 s), 404, 500, slow-500, timeout, refuse(depth<=3)}, wait 1 s, wait 31 s, proxy-detected failure", "intervals": "(5s,2s) depth d; (30s,10s), (1s,0.5s), (2s,1s) depth d-1; (7s,3s) depth 3 with refuse; thorough adds (61s,30s)",
+	res.Info["bounds"] = map[string]any{"depth": depth, "events": "tick x {ok, slow-ok(11 s), 404, 500, slow-500, timeout}, wait 1 s, wait 31 s, proxy-detected failure; breaker-centred alphabet: tick x {ok, 500, timeout, refuse (3 attempts), refuse then the round's context ends during the retry delay}, waits, proxy-detected failure", "intervals": "(5s,2s) depth d; (30s,10s), (1s,0.5s), (2s,1s) depth d-1; breaker-centred alphabet: (7s,3s) depth d, (1s,0.5s) depth d-1; thorough adds (61s,30s)",
 		"liveness": "from every reached state: works-again continuation (first real probe within 150 s, then healthy) and all-failing continuation (gap between real probes <= 150 s)", "state_dedup": "none"}
 	res.Info["rule"] = "every history is executed on a fresh real repository + health checker + health client + breaker + retry handler under a frozen virtual clock; asynchronous recovery callbacks are run to quiescence by the controlled scheduler; status, failure count, NextCheckTime-LastChecked, real probe count and callback count compared after every event"
 	res.Assume("time owned through the vclock seam in internal/adapter/health, core/retry.go and discovery/repository.go", "real sockets and http.Client timeouts are replaced by a scripted HTTPClient (their classification is exercised through STACK in C04/C20)",
-		"the health client's retry delays (100/200 ms) use real time; outcomes that trigger them are confined to depth <= 3")
+		"the health client's retry delays (100/200 ms) count as elapsed at once (vclock.DelayContext) and do not move the clock")
 	res.Finish()
 }
